@@ -21,6 +21,10 @@ class MySQLParser(SQLParser):
         ('left', PLUS, MINUS),
         ('left', STAR, DIVIDE, MODULO),
         ('right', UMINUS),  # Unary minus operator, unary not
+        # `tab OFFSET 1` / `col OFFSET 1`: OFFSET is also an identifier word; after a table or a result column without
+        # alias it starts the OFFSET clause (reduce) instead of being shifted as the alias (same as the mindsdb dialect)
+        ('nonassoc', OFFSET),
+        ('nonassoc', WITHOUT_ALIAS),
     )
 
     # Top-level statements
@@ -631,7 +635,7 @@ class MySQLParser(SQLParser):
        'from_table identifier',
        'from_table AS dquote_string',
        'from_table dquote_string',
-       'from_table')
+       'from_table %prec WITHOUT_ALIAS')
     def from_table_aliased(self, p):
         entity = p.from_table
         if hasattr(p, 'identifier'):
@@ -683,12 +687,12 @@ class MySQLParser(SQLParser):
         targets = p.result_columns
         return Select(targets=targets)
 
-    @_('result_columns COMMA result_column')
+    @_('result_columns COMMA result_column %prec WITHOUT_ALIAS')
     def result_columns(self, p):
         p.result_columns.append(p.result_column)
         return p.result_columns
 
-    @_('result_column')
+    @_('result_column %prec WITHOUT_ALIAS')
     def result_columns(self, p):
         return [p.result_column]
 
